@@ -132,6 +132,11 @@ func c06Profiles(tier string) []Profile {
 	ppp := pp.Profile(fmt.Sprintf("the default-comparator product (Set sequences of length <= %d x 6 cache states x 6 APIs x 11 targets x withValue, complete visits) on a store whose ItemAlloc / ItemAddRef / ItemDecRef callbacks form a recycling pool (released items are scrubbed), plus the same visit with a visitor that calls EvictSomeItems twice at its first callback: every item delivered must be a live item of the pinned version; eviction walks follow the default random branch and every single deviation from it", depth))
 	ppp.Budget = map[int]int{explore.ClassRand: 1}
 	ps = append(ps, ppp)
+	bd := 3
+	if tier == "thorough" {
+		bd = 4
+	}
+	ps = append(ps, bigOffsetProfile(bd))
 	return append(ps, c06Faulted())
 }
 
